@@ -67,6 +67,8 @@ def value_for(section, key, typ, src, flip, sb, absolute):
     if typ == "strlist":
         return {"s": ["=", "-", "~"], "u": ["^", "+"], "c": ["*"]}[src]
     if typ == "list-union":
+        if flip and src == "s":
+            return []            # an empty list in a higher-priority source must not hide the lower ones
         return {"s": ["pat_s1", "*.s2"], "u": ["pat_u1"], "c": ["pat_c1", "pat_c2/"]}[src]
     if typ == "path-cli":
         rel = f"outdir_{src}/x"
